@@ -542,7 +542,7 @@ class Executor:
                         fh.write(self.store.data(v[1:]))
                 else:
                     with open(p, "wb") as fh:
-                        fh.write((v or "").encode())
+                        fh.write((v or "").encode("utf-8", "surrogateescape"))
         links = []
         build(tree, self.scratch)
         for p, target in links:        # symbolic links last (their targets exist by then); target relative to the link's directory
